@@ -159,7 +159,7 @@ func RunCheck(cfg CheckConfig) int {
 		}
 		for _, r := range fr.Results {
 			o := r.Obl
-			mine := true
+			mine := len(o.Props) == 0 || hasProp(o.Props, prop) || prop == "ALL"
 			if prop == "C17" {
 				mine = strings.HasPrefix(o.Kind, "safe.") || o.Kind == "cover"
 			}
